@@ -837,6 +837,8 @@ impl Log {
 		let appending = appending.as_mut().unwrap();
 		let FlushedLog { index, values, ref_count, bytes } =
 			log.flush_to_file(&mut appending.file)?;
+		#[cfg(parity_db_verif)]
+		crate::verif::event("append", record_id, appending.id as u64);
 		let mut overlays = self.overlays.write();
 		let mut total_index = 0;
 		for (id, overlay) in index.into_iter() {
@@ -982,6 +984,8 @@ impl Log {
 		};
 		for (id, ref mut file) in cleaned.iter_mut() {
 			log::debug!(target: "parity-db", "Cleaned: {}", id);
+			#[cfg(parity_db_verif)]
+			crate::verif::event("truncate", *id as u64, 0);
 			try_io!(file.rewind());
 			try_io!(file.set_len(0));
 			file.sync_all().map_err(Error::Io)?;
